@@ -23,7 +23,7 @@ import modelgen
 import vlib
 from checks import c06
 
-THEOREMS = ["Yardl.C05.conversion_total", "Yardl.C05.unchanged_types_convert_exactly_partial", "Yardl.C05.record_fields_convert_by_name",
+THEOREMS = ["Yardl.C05.conversion_total", "Yardl.C05.unchanged_types_convert_exactly", "Yardl.C05.record_fields_convert_by_name",
             "Yardl.C05.integer_narrowing_overflows"]
 
 
@@ -56,6 +56,10 @@ def run(report, tier, seed):
                     report.count("edit." + e.split(":")[0] + ":" + e.split(":")[1] if ":" in e else "edit." + e)
             exercise(report, lab, lean, seed, 4 if quick else 10)
         lean.close()
+        for k2, n2 in HYP.items():
+            report.count("conv." + k2, n2)
+        if HYP.get("identity.MODEL-DISAGREES-WITH-THEOREM"):
+            report.violation("model:identity-conversion", {"theorem_or_correspondence": "Yardl.C05.unchanged_types_convert_exactly vs wiredrv evo_conv"}, "no-failing-input-found")
 
 
 class Chain:
@@ -179,6 +183,9 @@ def directed_chains():
     chain("directed:add-and-remove-optional-field", f, f + [["e", ["opt", P("string")]]], f[:3] + [["e", ["opt", P("string")]]])
     chain("directed:add-and-remove-required-field", f, f[:1] + [["z", ["vec", P("uint8"), None]]] + f[1:], f[1:])
     chain("directed:widen-and-narrow-integers", f, [["a", P("int64")]] + f[1:], [["a", P("int8")]] + f[1:])
+    # same width, other signedness: the upper half of the unsigned range and the negative numbers have no counterpart
+    chain("directed:same-width-sign-change-32", f, [["a", P("uint32")]] + f[1:], [["a", P("int32")]] + f[1:], [["a", P("uint32")]] + f[1:])
+    chain("directed:same-width-sign-change-64-8", [["a", P("uint64")], ["b", P("uint8")]], [["a", P("int64")], ["b", P("int8")]], [["a", P("uint64")], ["b", P("uint8")]])
     chain("directed:integer-to-string-and-back", f, [["a", P("string")]] + f[1:], [f[0], ["b", P("string")], f[2], f[3]])
     chain("directed:make-optional-and-back", f, [["a", ["opt", P("int32")]]] + f[1:], f)
     chain("directed:optional-to-union-and-back", f, f[:3] + [["d", ["union", True, [["x", P("int16")], ["y", P("string")]]]]], f)
@@ -196,6 +203,10 @@ def directed_chains():
     return out
 
 
+import collections
+HYP = collections.Counter()
+
+
 def _conv_steps(lean, reading, src_proto, dst_proto, vals):
     """expected step values of dst_proto; -> (expected | None, status) status in ok|err|unsupported"""
     by_name = {s["name"]: (s, v) for s, v in zip(src_proto, vals)}
@@ -210,6 +221,11 @@ def _conv_steps(lean, reading, src_proto, dst_proto, vals):
         conv = []
         for x in items:
             r = lean.ask({"op": "evo_conv", "reading": reading, "src": s["ty"], "dst": d["ty"], "val": x})
+            if s["ty"] == d["ty"]:
+                # an instance of unchanged_types_convert_exactly: under its hypotheses the model must answer the value itself
+                HYP["identity." + ("hypotheses-hold" if r.get("wf_fits") else "hypotheses-fail-or-not-ok")] += 1
+                if r.get("wf_fits") and r.get("ok") != x:
+                    HYP["identity.MODEL-DISAGREES-WITH-THEOREM"] += 1
             if "ok" in r:
                 conv.append(r["ok"])
             elif "err" in r:
